@@ -293,8 +293,38 @@ def d5_stateless(ctx, F):
     ctx.floor("C14.D5.stateless.transforms", n, 14)
 
 
+def d6_default_pairs(ctx, F):
+    """a default-constructed compressor and the default-constructed decompressor of the same family are a pair: their Default impls
+    (derived or hand-written, helpers inlined) select the same library variant(s)"""
+    defaults = {}
+    for im in F.impls_of("core::default::Default"):
+        s_ = im.get("self") or ""
+        if not s_.startswith("selium_std::compression::") or "default" not in im.get("items", {}):
+            continue
+        b = F.bodies.get(im["items"]["default"])
+        if b is None:
+            continue
+        ctx.touch(b)
+        ib = F.inlined(b)
+        libs = sorted({"%s::%s" % (rv["adt"].rsplit("::", 1)[-1], rv["variant"]) for i, j, pl, rv, s in ib.assigns()
+                       if rv["k"] == "agg" and rv.get("agg") == "adt" and rv.get("adt", "").startswith("selium_std::compression::") and F.adts.get(rv["adt"], {}).get("kind") == "Enum"})
+        defaults[s_] = (libs, b.span)
+    fam = {}
+    for s_, (libs, sp) in defaults.items():
+        parts = s_.split("::")
+        if parts[-2] in ("comp", "decomp"):
+            fam.setdefault("::".join(parts[:-2]), {})[parts[-2]] = (s_, libs, sp)
+    for f_, sides in sorted(fam.items()):
+        if "comp" in sides and "decomp" in sides:
+            ctx.check(sides["comp"][1] == sides["decomp"][1], "C14.D2.default-pair", "default-mismatch:%s" % f_.rsplit("::", 1)[-1],
+                      "%s::default() and %s::default() select the same library (%s vs %s)" % (sides["comp"][0].rsplit("::", 1)[-1], sides["decomp"][0].rsplit("::", 1)[-1], sides["comp"][1], sides["decomp"][1]),
+                      sides["comp"][2])
+    ctx.ok("C14.D2.default-pair", "Default impls of %d compression types compared per family" % len(defaults))
+
+
 def run(ctx):
     F = ctx.facts("quick")
+    d6_default_pairs(ctx, F)
     d5_stateless(ctx, F)
     d1(ctx, F)
     decomp_whole_output(ctx, F)
